@@ -1,5 +1,5 @@
 """C09 - reported error locations point at a real, consistent input location."""
-from contracts import core, lists, bind, rt_errors
+from contracts import core, lists, bind, rt_errors, rt_misc
 from pyvc.report import Report
 from pyvc.rtver import RtCx
 from .common import run_fragments, run_rt, run_vcs
@@ -16,6 +16,7 @@ def run(tier, seed):
                      'ParseError with (pos, None, None) exactly at end of input; every fragment reports a failure position that some '
                      'sub-attempt left behind (G-fpos) inside [0, len(text)] (G-range).')
     run_rt(rep, rt_errors.RT, tier)
+    run_rt(rep, rt_misc.EXC, tier)        # the messages: PartialParseError carries the excerpt unchanged, on a fresh line
     for b in (False, True):
         cx = RtCx(None, {'bytes': b})
         run_vcs(rep, f'lemma:lastnl-props[bytes={b}]', rt_errors.lemma_vcs(cx))
